@@ -33,6 +33,27 @@ def gen_cases(ctx, n):
     r = ctx.rng
     descs = [G.rand_fields(r, i % 4) for i in range(n)]
     enc, _ = core.run_lines_parallel([core.lhv_path()], ["hdrenc " + d for d, _ in descs])
+    # length-targeted variants: a level-2/3 header padded by one unknown extended header so that its TOTAL length is an exact
+    # multiple of 256 (the low byte of the 16-bit length field is 0), one less and one more; level-0/1 headers have their length
+    # in one byte and are covered by the name lengths up to the maximum
+    var = []
+    for (d, tags), e in zip(list(descs), list(enc)):
+        if not e.startswith("ok") or d[1] not in "23" or ";X" not in d or "chain" in " ".join(tags) or r.random() > 0.3:
+            continue
+        ln = len(e.split()[1]) // 2
+        over = 3 if d[1] == "2" else 5
+        for delta in (0, -1, 1):
+            target = (ln + over + 255) // 256 * 256 + r.choice([0, 0, 256]) + delta
+            k = target - ln - over
+            if k < 0 or target > 4000:
+                continue
+            pre, x = d.split(";X")
+            ext = "O%d.%s" % (r.choice([0x3f, 0x7e]), G.hx(bytes([r.randrange(256)]) * k))
+            var.append((pre + ";X" + (x + "|" if x else "") + ext, set(tags) | {"total-length%256=" + str(delta % 256)}))
+    venc, _ = core.run_lines_parallel([core.lhv_path()], ["hdrenc " + d for d, _ in var])
+    for (d, tags), e in zip(var, venc):
+        if e.startswith("ok"):
+            descs.append((d, tags)); enc.append(e)
     out = []
     for (d, tags), e in zip(descs, enc):
         if not e.startswith("ok"):
